@@ -161,6 +161,18 @@ CHECKS['C08'] = dict(
          'mean of channel-restricted templates as exact rationals). Longer random histories extend depth.',
     design_ref='4 (C08)', technique='TLA+/TLC model checking of curation histories + state replay + trace validation',
     note=_NOTE + ' Channel lists of templates are taken from get_template (C05).')
+CHECKS['C06'] = dict(
+    text='Features.tla: TLC proves that the transcription of from_sparse (mask to -1, _index_of over the '
+         'requested channels plus the discard slot, scatter, drop the discard column) equals the '
+         'declarative Dense for every (stored columns, values, requested channels) triple in scope; every '
+         'case is replayed on the real from_sparse (stacked rows, extra trailing dimension, no spikes, '
+         'unsigned ids). Requests against real models with feature / template-feature stores with and '
+         'without a row table (sorted and unsorted spike subsets, channel permutations with unknown '
+         'channels, three index dtypes) are validated by GetFeaturesOk / GetTemplateFeaturesOk; the PCA '
+         'clause is validated (directly and through a model with a waveform store and no feature file) on '
+         'the exactly diagonal covariance family by the sign-invariant pairwise-product relation.',
+    design_ref='4 (C06)', technique='TLA+/TLC model checking + exhaustive spec-to-code replay + trace validation',
+    note=_NOTE + ' PCA of general waveforms is numerical linear algebra and is not decided.')
 
 NOT_APPLICABLE = {}
 for e in ENGINES:
